@@ -14,11 +14,66 @@ theorem m_nestSeq_cons (e : Env) (x : Pat) (xs : List Pat) (st : St) :
   | nil => simp [nestSeq, nest, m]
   | cons y ys => simp [nestSeq, nest, m]
 
-theorem m_nestAlt_cons (e : Env) (x : Pat) (xs : List Pat) (st : St) :
-    m e (nestAlt (x :: xs)) false st = m e x false st ++ m e (nestAlt xs) false st := by
+theorem m_nestAlt_cons (e : Env) (x : Pat) (xs : List Pat) (d : Bool) (st : St) :
+    m e (nestAlt (x :: xs)) d st = m e x d st ++ m e (nestAlt xs) d st := by
   cases xs with
   | nil => simp [nestAlt, nest, m]
   | cons y ys => simp [nestAlt, nest, m]
+
+/-- right to left the LAST pattern of a concatenation is matched first -/
+theorem m_nestSeq_cons_rtl (e : Env) (x : Pat) (xs : List Pat) (st : St) :
+    m e (nestSeq (x :: xs)) true st = (m e (nestSeq xs) true st).flatMap (m e x true) := by
+  cases xs with
+  | nil => simp [nestSeq, nest, m]
+  | cons y ys => simp [nestSeq, nest, m]
+
+theorem flatMap_singleton_self {α : Type} (l : List α) : l.flatMap (fun x => [x]) = l := by
+  induction l with
+  | nil => rfl
+  | cons x xs ih => simp [ih]
+
+theorem m_nestSeq_append_single_rtl (e : Env) (p : Pat) : ∀ (qs : List Pat) (st : St),
+    m e (nestSeq (qs ++ [p])) true st = (m e p true st).flatMap (m e (nestSeq qs) true)
+  | [], st => by
+    have : (fun s => m e (nestSeq []) true s) = fun s => [s] := by funext s; simp [nestSeq, nest, m]
+    simp only [List.nil_append]
+    rw [show m e (nestSeq []) true = fun s => [s] from this, flatMap_singleton_self]
+    simp [nestSeq, nest]
+  | q :: qs, st => by
+    rw [List.cons_append, m_nestSeq_cons_rtl, m_nestSeq_append_single_rtl e p qs st, List.flatMap_assoc]
+    congr 1
+    funext s
+    rw [m_nestSeq_cons_rtl]
+
+/-- the children of a concatenation in the order the code runs them: stored order; the specification's pattern lists
+    them reversed when matching right to left -/
+def seqList (e : Env) (d : Bool) : List Pat → St → List St
+  | [], st => [st]
+  | p :: ps, st => (m e p d st).flatMap (seqList e d ps)
+
+theorem m_nestSeq_dir (e : Env) (d : Bool) : ∀ (ps : List Pat) (st : St),
+    m e (nestSeq (if d then ps.reverse else ps)) d st = seqList e d ps st := by
+  cases d with
+  | false =>
+    intro ps
+    simp only [Bool.false_eq_true, if_false]
+    induction ps with
+    | nil => intro st; simp [nestSeq, nest, m, seqList]
+    | cons p ps ih =>
+      intro st
+      rw [m_nestSeq_cons, seqList]
+      congr 1
+      funext s; exact ih s
+  | true =>
+    intro ps
+    simp only [if_true]
+    induction ps with
+    | nil => intro st; simp [nestSeq, nest, m, seqList]
+    | cons p ps ih =>
+      intro st
+      rw [List.reverse_cons, m_nestSeq_append_single_rtl, seqList]
+      congr 1
+      funext s; exact ih s
 
 /-- a literal string matches exactly where the text spells it -/
 theorem m_multi (e : Env) (C : List (Nat × Nat × Nat)) : ∀ (str : List Nat) (i : Nat),
@@ -47,6 +102,56 @@ theorem m_multi (e : Env) (C : List (Nat × Nat × Nat)) : ∀ (str : List Nat) 
       · have hne : (r == c) = false := by simpa using hrc
         have hne' : ¬ c = r := fun h => hrc h.symm
         simp [m, stepChar, hx, Pred.test, hne, hd, hne']
+
+/-- right to left a literal string matches exactly where the text before the position spells it -/
+theorem m_multi_rtl (e : Env) (C : List (Nat × Nat × Nat)) : ∀ (str : List Nat) (i : Nat),
+    m e (nestSeq (str.map (fun r => .chr (.one r false)))) true ⟨i, C⟩ =
+      if str.length ≤ i ∧ (e.text.drop (i - str.length)).take str.length = str then [⟨i - str.length, C⟩] else []
+  | [], i => by simp [nestSeq, nest, m]
+  | r :: rest, i => by
+    rw [List.map_cons, m_nestSeq_cons_rtl, m_multi_rtl e C rest i]
+    by_cases h1 : rest.length ≤ i ∧ (e.text.drop (i - rest.length)).take rest.length = rest
+    · rw [if_pos h1]
+      simp only [List.flatMap_cons, List.flatMap_nil, List.append_nil, List.length_cons]
+      by_cases h0 : i - rest.length = 0
+      · have hle : ¬ rest.length + 1 ≤ i := by omega
+        simp [m, stepChar, h0, hle]
+      · have hj : i - (rest.length + 1) + 1 = i - rest.length := by omega
+        have e1 : i - rest.length - 1 = i - (rest.length + 1) := by omega
+        cases hx : e.text[i - (rest.length + 1)]? with
+        | none =>
+          have hlen : e.text.length ≤ i - (rest.length + 1) := by simpa using hx
+          have hd : e.text.drop (i - (rest.length + 1)) = [] :=
+            List.drop_eq_nil_of_le (by omega)
+          simp [m, stepChar, h0, e1, hx, hd]
+        | some c =>
+          have hlt := (List.getElem?_eq_some_iff.mp hx).1
+          have hget := (List.getElem?_eq_some_iff.mp hx).2
+          have hd : e.text.drop (i - (rest.length + 1)) = c :: e.text.drop (i - rest.length) := by
+            rw [List.drop_eq_getElem_cons hlt, hget, hj]
+          have hle : rest.length + 1 ≤ i := by omega
+          by_cases hrc : r = c
+          · subst hrc
+            simp [m, stepChar, h0, e1, hx, Pred.test, hd, hle, h1.2]
+          · have hne : (r == c) = false := by simpa using hrc
+            have hne' : ¬ c = r := fun h => hrc h.symm
+            simp [m, stepChar, h0, e1, hx, Pred.test, hne, hd, hne']
+    · rw [if_neg h1]
+      simp only [List.flatMap_nil, List.length_cons]
+      have : ¬ (rest.length + 1 ≤ i ∧ (e.text.drop (i - (rest.length + 1))).take (rest.length + 1) = r :: rest) := by
+        rintro ⟨hle, heq⟩
+        apply h1
+        refine ⟨by omega, ?_⟩
+        have hj : i - (rest.length + 1) + 1 = i - rest.length := by omega
+        cases hdr : e.text.drop (i - (rest.length + 1)) with
+        | nil => rw [hdr] at heq; simp at heq
+        | cons c tl =>
+          rw [hdr] at heq
+          simp only [List.take_succ_cons, List.cons.injEq] at heq
+          have : e.text.drop (i - rest.length) = tl := by
+            rw [← hj, ← List.drop_drop, hdr]; rfl
+          rw [this]; exact heq.2
+      rw [if_neg this]
 
 /-- captures are only appended -/
 theorem iter_caps_ext (f : St → List St) (hf : ∀ st, ∀ st' ∈ f st, ∃ ext, st'.caps = st.caps ++ ext)
